@@ -2799,6 +2799,10 @@ func (uconn *UConn) ApplyPreset(p *ClientHelloSpec) error {
 			strconv.Itoa(len(hello.Random)) + " bytes")
 	}
 
+	if len(p.CompressionMethods) != 0 {
+		hello.CompressionMethods = make([]uint8, len(p.CompressionMethods))
+		copy(hello.CompressionMethods, p.CompressionMethods)
+	}
 	if len(hello.CompressionMethods) == 0 {
 		hello.CompressionMethods = []uint8{compressionNone}
 	}
